@@ -53,6 +53,8 @@ type SeededLogs struct {
 	Event     *model.Event `json:"event"`
 	AddrInput int          `json:"addr_input"`
 	UpTo      uint64       `json:"up_to"`
+	// Only: indices into the address pool that are seeded (empty = all)
+	Only []int `json:"only,omitempty"`
 }
 
 type FaultPlan struct {
